@@ -134,10 +134,15 @@ def _run(cfg):
     t0 = cfg.get("t0", 1)
     queries = set(cfg.get("queries", ()))
     script = cfg.get("rewards")
+    midq = set(cfg.get("midq", ()))
     for i in range(T):
         pt = rec.pull(t0 + i)
         if rec.failed or not R.is_point(pt, D):      # not a point (e.g. None once a depth cap is exhausted): the trace ends here, with that event
             break
+        if i in midq:          # a recommendation query between pull and receive_reward: the reward still belongs to the cell just pulled (C04)
+            rec.glp()
+            if rec.failed:
+                break
         if script is not None:
             ru = script[i]
             r = ru / RU
